@@ -279,7 +279,184 @@ def oracle_pingrc(inp):
     return None if got == inp['expect'] else 'rmcp_ping with exit status %d: %s, expected %s' % (inp['rc'], got, inp['expect'])
 
 
-ORACLES = {'argv': oracle_argv, 'ping': oracle_ping, 'reply': oracle_reply, 'pingrc': oracle_pingrc}
+
+# ------------------------------------------------------------------ histories (state across commands)
+PRIV_NAMES = {2: 'user', 3: 'operator', 4: 'administrator'}
+HISTORY_KEY = 'history:command-depends-on-earlier-configuration'
+
+
+def configure_session(s, cfg):
+    """bring a Session object to configuration cfg through its public setters"""
+    from pyipmi.session import Session
+    s.set_session_type_rmcp(fsd(bytes.fromhex(cfg['host'])), cfg['port'])
+    s.set_priv_level(PRIV_NAMES[cfg['priv']])
+    a = cfg['auth']
+    if a[0] == 'password':
+        s.set_auth_type_user(fsd(bytes.fromhex(a[1])), fsd(bytes.fromhex(a[2])))
+    else:
+        s.auth_type = Session.AUTH_TYPE_NONE
+    s.set_session_type_serial(fsd(bytes.fromhex(cfg['sport'])), cfg['baud'])
+
+
+def run_history(steps):
+    """Run a history on live objects in THIS process: interfaces are created once ('new') and then
+    re-configured in place; every command goes through the real _run_ipmitool, /bin/sh and the stub.
+    Steps (each robust against the removal of earlier ones - a missing interface is created with
+    the standard configuration):
+      {'op':'new','id':k,'cfg':{type,cipher,host,port,priv,auth,sport,baud}}   new Ipmitool + new Session
+      {'op':'set','id':k,'cfg':{...subset...}}    setters on the SAME Session, then session.establish()
+      {'op':'newsession','id':k,'cfg':{...}}      a NEW Session object established on the same interface
+      {'op':'raw','id':k,'target':..,'lun':..,'netfn':..,'raw':hex,'reply':hex}
+      {'op':'ping','id':k}
+    -> one record per command: (step index, op, configuration current at that moment, command line, observed, result)"""
+    from pyipmi.interfaces.ipmitool import Ipmitool
+    from pyipmi.session import Session
+    st = {}
+    recs = []
+    outf = U.DIR / 'canned'
+
+    def fresh(k, cfg):
+        base = std_inp()
+        base.update(cfg)
+        ci = base.get('cipher')
+        itf = Ipmitool(interface_type=base['type'],
+                       cipher=None if ci is None else (int(ci[1]) if ci[0] == 'int' else str(ci[1])))
+        s = Session()
+        s.interface = itf
+        configure_session(s, base)
+        s.establish()
+        st[k] = {'cfg': base, 'itf': itf, 'session': s}
+        return st[k]
+
+    def get(k):
+        return st[k] if k in st else fresh(k, {})
+
+    for i, step in enumerate(steps):
+        op, k = step['op'], step.get('id', 0)
+        if op == 'new':
+            fresh(k, step['cfg'])
+        elif op == 'set':
+            e = get(k)
+            e['cfg'] = dict(e['cfg'], **step['cfg'])
+            configure_session(e['session'], e['cfg'])
+            e['session'].establish()
+        elif op == 'newsession':
+            e = get(k)
+            e['cfg'] = dict(e['cfg'], **step['cfg'])
+            s = Session()
+            s.interface = e['itf']
+            configure_session(s, e['cfg'])
+            s.establish()
+            e['session'] = s
+        else:
+            e = get(k)
+            cap = []
+            itf = e['itf']
+            real = Ipmitool._run_ipmitool
+            itf._run_ipmitool = lambda cmd, real=real, cap=cap: (cap.append(cmd), real(cmd))[1]
+            reply = bytes.fromhex(step.get('reply', ''))
+            outf.write_bytes(fmt_reply(reply))
+            with U.LibraryEnv(out=outf, rc=0) as le:
+                try:
+                    if op == 'ping':
+                        r = itf.rmcp_ping()
+                    else:
+                        r = itf.send_and_receive_raw(mk_target(step['target']), step['lun'], step['netfn'],
+                                                     bytes.fromhex(step['raw']))
+                except Exception as ex:  # noqa
+                    r = ex
+                inv = le.invocations()
+            del itf._run_ipmitool
+            inp = dict(e['cfg'])
+            if op == 'raw':
+                inp.update(target=step['target'], lun=step['lun'], netfn=step['netfn'], raw=step['raw'])
+            recs.append({'i': i, 'op': op, 'inp': inp, 'cmd': os.fsencode(cap[0]) if cap else None,
+                         'obs': U.observed(inv), 'n': len(inv), 'result': r, 'reply': reply})
+    return recs
+
+
+def oracle_history(inp):
+    """every command of a history must carry the configuration current at that moment - exactly what
+    the same command carries when it is the first one sent (argv prescribed by spec_argv)"""
+    steps = inp['calls']
+    return judge_history(run_history(steps), len(steps))
+
+
+def judge_history(recs, nsteps):
+    for rec in recs:
+        exp = spec_ping_argv(rec['inp']) if rec['op'] == 'ping' else spec_argv(rec['inp'])
+        where = 'step %d of %d (%s)' % (rec['i'], nsteps, rec['op'])
+        if rec['obs'] is None:
+            return '%s: ipmitool was started %d times (result %r); expected argv %s' % (
+                where, rec['n'], rec['result'], show(exp[0]))
+        if rec['obs'][0] != exp[0]:
+            return '%s: ipmitool received %s, but the configuration current at that moment prescribes %s' % (
+                where, show(rec['obs'][0]), show(exp[0]))
+        if rec['obs'][1] != exp[1]:
+            return '%s: stderr %s redirected to stdout' % (where, 'is' if rec['obs'][1] else 'is not')
+        r = rec['result']
+        if rec['op'] == 'raw' and (isinstance(r, Exception) or bytes(r) != b'\0' + rec['reply']):
+            return '%s: reply %s came back as %r' % (where, rec['reply'].hex(), r)
+        if rec['op'] == 'ping' and r is not None:
+            return '%s: rmcp_ping returned %r' % (where, r)
+    return None
+
+
+def rand_history(rng, n):
+    def auth():
+        k = rng.randrange(6)
+        if k == 0:
+            return ['none']
+        if k <= 2:
+            return ['password', plain(rng).hex(), plain(rng).hex()]
+        return ['password', rand_str(rng, rng.randrange(0, 10)).hex(), rand_str(rng, rng.randrange(0, 16)).hex()]
+
+    def cfg(full):
+        d = {}
+        for key, gen in (('auth', auth), ('priv', lambda: rng.choice([2, 3, 4])),
+                         ('host', lambda: rng.choice([b'10.0.1.1', b'bmc-7.example.org', plain(rng)]).hex()),
+                         ('port', lambda: rng.choice([623, 1623, rng.randrange(1, 65536)])),
+                         ('sport', lambda: rng.choice([b'/dev/tty2', b'/dev/ttyUSB0']).hex()),
+                         ('baud', lambda: rng.choice([9600, 115200]))):
+            if full or rng.randrange(3) == 0:
+                d[key] = gen()
+        if not full and not d:
+            d['auth'] = auth()
+        return d
+
+    def new(k):
+        c = cfg(True)
+        c['type'] = rng.choice(['lan', 'lan', 'lanplus', 'lanplus', 'open', 'serial-terminal'])
+        c['cipher'] = rng.choice([None, None, ['int', rng.randrange(0, 255)], ['str', rng.randrange(0, 255)]])
+        return {'op': 'new', 'id': k, 'cfg': c}
+    steps = [new(0)]
+    ids = [0]
+    types = {0: steps[0]['cfg']['type']}
+    while len(steps) < n:
+        k = rng.choice(ids)
+        r = rng.randrange(20)
+        if r < 9:
+            steps.append({'op': 'raw', 'id': k, 'target': rand_target(rng), 'lun': rng.randrange(4),
+                          'netfn': rng.randrange(64),
+                          'raw': bytes(rng.randrange(256) for _ in range(rng.randrange(1, 9))).hex(),
+                          'reply': bytes(rng.randrange(256) for _ in range(rng.randrange(0, 20))).hex()})
+        elif r < 11:
+            if types[k] != 'serial-terminal':
+                steps.append({'op': 'ping', 'id': k})
+        elif r < 16:
+            steps.append({'op': 'set', 'id': k, 'cfg': cfg(False)})
+        elif r < 18:
+            steps.append({'op': 'newsession', 'id': k, 'cfg': cfg(True)})
+        elif len(ids) < 3:
+            k2 = len(ids)
+            steps.append(new(k2))
+            ids.append(k2)
+            types[k2] = steps[-1]['cfg']['type']
+    return steps
+
+
+ORACLES = {'argv': oracle_argv, 'ping': oracle_ping, 'reply': oracle_reply, 'pingrc': oracle_pingrc,
+           'history': oracle_history}
 
 
 def replay(data):
@@ -606,6 +783,54 @@ def run(ctx):
     oracle('pingrc', {'rc': 0, 'expect': 'None'}, 'ping:status')
     oracle('pingrc', {'rc': 1, 'expect': 'TimeoutError'}, 'ping:status')
 
+    # ---------------- (d) histories: ONE interface object + ONE Session re-configured in place, a second
+    # interface created later; every command compared with the stateless model and the independent argv
+    fixed_hist = [
+        [{'op': 'new', 'id': 0, 'cfg': {'type': 'lanplus'}},
+         {'op': 'raw', 'id': 0, 'target': {'addr': 0x20, 'routing': None}, 'lun': 0, 'netfn': 6, 'raw': '01', 'reply': '20'},
+         {'op': 'set', 'id': 0, 'cfg': {'auth': ['password', b'admin'.hex(), b'new;pw && echo \\'.hex()]}},
+         {'op': 'raw', 'id': 0, 'target': {'addr': 0x20, 'routing': None}, 'lun': 0, 'netfn': 6, 'raw': '01', 'reply': '20'},
+         {'op': 'ping', 'id': 0},
+         {'op': 'set', 'id': 0, 'cfg': {'auth': ['none']}},
+         {'op': 'raw', 'id': 0, 'target': {'addr': 0x82, 'routing': [[0x81, 0x20, 0], [0x20, 0x82, 7]]}, 'lun': 1, 'netfn': 0x2c, 'raw': '0000', 'reply': ''},
+         {'op': 'set', 'id': 0, 'cfg': {'auth': ['password', b'operator'.hex(), b''.hex()], 'priv': 3}},
+         {'op': 'raw', 'id': 0, 'target': None, 'lun': 0, 'netfn': 6, 'raw': '01', 'reply': '0102'},
+         {'op': 'new', 'id': 1, 'cfg': {'type': 'lan', 'cipher': ['int', 3], 'host': b'other'.hex(), 'priv': 2,
+                                        'auth': ['password', b'u2'.hex(), b'$x'.hex()]}},
+         {'op': 'raw', 'id': 1, 'target': {'addr': 0x20, 'routing': None}, 'lun': 0, 'netfn': 6, 'raw': '01', 'reply': '20'},
+         {'op': 'raw', 'id': 0, 'target': {'addr': 0x20, 'routing': None}, 'lun': 0, 'netfn': 6, 'raw': '01', 'reply': '20'},
+         {'op': 'newsession', 'id': 0, 'cfg': {'auth': ['password', b'root'.hex(), b'`x`'.hex()], 'host': b'10.0.0.9'.hex()}},
+         {'op': 'raw', 'id': 0, 'target': {'addr': 0x20, 'routing': None}, 'lun': 0, 'netfn': 6, 'raw': '01', 'reply': '20'},
+         {'op': 'ping', 'id': 1}]]
+    histories = fixed_hist + [rand_history(rng, rng.randrange(6, 22)) for _ in range(30 if q else 300)]
+    for steps in histories:
+        recs = run_history(steps)
+        for rec in recs:
+            res.evaluations += 1
+            if rec['op'] == 'raw':
+                add('chk_argv %s %s' % (c_call(rec['inp']), c_obs(rec['obs'])),
+                    ('history-argv', rec['i'], rec['inp'], None if rec['obs'] is None else [a.hex() for a in rec['obs'][0]]))
+                add('chk_cmd %s %s' % (c_call(rec['inp']), C.c_opt(None if rec['cmd'] is None else C.c_hex(rec['cmd']))),
+                    ('history-cmd', rec['i'], rec['inp'], None if rec['cmd'] is None else rec['cmd'].decode('latin-1')))
+            else:
+                add('chk_ping %s %s' % (c_config(rec['inp']), C.c_opt(None if rec['cmd'] is None else C.c_hex(rec['cmd']))),
+                    ('history-ping', rec['i'], rec['inp'], None if rec['cmd'] is None else rec['cmd'].decode('latin-1')))
+            D.add(('hist', rec['i'], repr(rec['inp'])), rec['i'] > 1, 'history-' + rec['op'])
+        if HISTORY_KEY not in fails:
+            msg = judge_history(recs, len(steps))
+            if msg:
+                # confirm from a clean start (fresh interpreter) and shrink; every candidate in a new process
+                seq = C.shrink_history('C19', 'history', steps)
+                if seq is not None:
+                    fails[HISTORY_KEY] = C.Violation(
+                        key=HISTORY_KEY,
+                        what=(oracle_history({'calls': seq}) or msg) + ' [history of %d step(s)]' % len(seq),
+                        replay={'oracle': 'history', 'input': {'calls': seq}})
+                else:
+                    fails[HISTORY_KEY + ':not-reproduced-in-fresh-process'] = C.Violation(
+                        key=HISTORY_KEY + ':not-reproduced-in-fresh-process', what=msg,
+                        replay={'oracle': 'history', 'input': {'calls': steps}})
+
     # ---------------- evaluate the model inside Coq
     failing, errors = C.coq_cases('C19', 'Model.Shell Model.IpmitoolIf Corr.C19', terms)
     fset = set(failing)
@@ -624,7 +849,9 @@ def run(ctx):
                 'bare, (single-quoted, after a backslash,) and escaped by the quoting rule; random strings of '
                 'specials/non-ASCII; builders: every interface type x target shape, ciphers, privilege levels, LUN x netfn, every '
                 'ASCII character as user/password, random configurations; parser: reply lengths 0..80, widths 16/8/1/40, CR LF, '
-                'every rsp=0xNN, error lines, malformed fields; oracle: real _run_ipmitool via /bin/sh with stub ipmitool. '
+                'every rsp=0xNN, error lines, malformed fields; oracle: real _run_ipmitool via /bin/sh with stub ipmitool; '
+                'histories: one interface + one Session re-configured in place (auth, level, host, new Session, second '
+                'interface) between commands, each command against the stateless model and the independent argv. '
                 'distinct = distinct canonical inputs; non-trivial = non-empty input' % len(SPECIALS))
     pick = [0, len(terms) // 3, len(terms) // 2, len(terms) - 1]
     res.samples = [{'term': terms[i][:400], 'case': str(meta[i])[:400]} for i in pick]
